@@ -11,6 +11,11 @@ import vxlib
 
 # (unit, file, regex, replacement, what it breaks)
 MUTATIONS = {
+    'C14': [
+        ('reconnect', 'tonic/src/transport/channel/service/reconnect.rs', r'if !\(self\.has_been_connected \|\| self\.is_lazy\) \{', 'if !(self.has_been_connected && self.is_lazy) {', 'lazy channel reports its first failure instead of parking it'),
+        ('reconnect', 'tonic/src/transport/channel/service/reconnect.rs', r'(Poll::Ready\(Err\(_\)\) => \{\s*trace!\("poll_ready; error"\);\s*)state = State::Idle;', r'\1return Poll::Ready(Ok(()));', 'dead connection reported as ready'),
+        ('reconnect', 'tonic/src/transport/channel/service/reconnect.rs', r'if let Some\(error\) = self\.error\.take\(\) \{\s*tracing::debug!\("error: \{\}", error\);', 'if let Some(error) = self.error.take() {\n            self.state = State::Idle;', 'handing out the parked error also drops the connection'),
+    ],
     'C01': [
         ('encode', 'tonic/src/codec/encode.rs', r'buf\.put_u32\(len as u32\);', 'buf.put_u32((len / 256) as u32);', 'length prefix is not the payload length'),
         ('decode', 'tonic/src/codec/decode.rs', r'if self\.buf\.remaining\(\) < HEADER_SIZE \{', 'if self.buf.remaining() < HEADER_SIZE - 1 {', 'header read one byte early'),
